@@ -155,6 +155,73 @@ def gen_run(rng, rule='trypsin', exc_on=False, sect=False, w2f=False):
             'min_len': rng.choice([4, 5, 7, 7]), 'max_len': rng.choice([15, 25, 25, 40]),
             'mvpn': -1, 'avpm': -1, 'mnc': 30, 'naa': 5}
 
+# ------------------------------------------------------------------ fusion cases (exonic breakpoints)
+def _snv_like(rng, gseq, gs):
+    ref = gseq[gs]
+    x = rng.random()
+    if x < 0.6:
+        return ref, _mut_base(rng, ref)
+    if x < 0.8:
+        return ref, ref + ''.join(rng.choice(NT) for _ in range(rng.choice([1, 2, 3])))
+    k = rng.choice([1, 2, 3])
+    return gseq[gs:gs + 1 + k], ref
+
+def gen_fusion_case(rng, coding_p=0.8):
+    """world with >= 2 genes, one fusion (donor transcript upstream part + acceptor transcript downstream
+    part, both breakpoints exonic) and 0-5 SNV/INDEL records near the junction on either partner.
+    case['fusions'] = [{id, donor_gene, donor_tx, bp, acc_gene, acc_tx, abp, row}]  (bp: donor bases kept,
+    abp: first acceptor base kept, transcript coordinates); row = the GVF fields for the repo's writer"""
+    for _ in range(200):
+        world = G.gen_world(rng, n_chrom=1, max_genes=3, coding_p=coding_p, small=True, sec_p=0.2, nf_p=0.15)
+        if len(world['genes']) < 2:
+            continue
+        gd, ga = rng.sample(world['genes'], 2)
+        td = rng.choice(gd['transcripts']); ta = rng.choice(ga['transcripts'])
+        Ld, La = G.tx_len(td), G.tx_len(ta)
+        if Ld < 40 or La < 30:
+            continue
+        if td['cds']:
+            lo = td['cds'][0] + 6
+            hi = min(Ld - 1, td['cds'][1] + 6)
+            if lo >= hi:
+                continue
+            bp = rng.randint(lo, hi)
+        else:
+            bp = rng.randint(12, Ld - 1)
+        abp = rng.randint(1, La - 12)
+        g_last = G.g2gene(gd, G.tx2g(gd, td, bp - 1))         # last donor base kept (gene coordinate)
+        a_first = G.g2gene(ga, G.tx2g(ga, ta, abp))           # first acceptor base kept
+        dseq = G.gene_seq(world, gd)
+        if g_last + 1 >= len(dseq):
+            continue
+        pos0 = g_last + 1
+        fid = 'FUSION-%s:%d-%s:%d' % (td['id'], pos0 + 1, ta['id'], a_first + 1)
+        row = {'gene_id': gd['id'], 'start0': pos0, 'id': fid, 'ref': dseq[pos0], 'tx_id': td['id'], 'gene_symbol': gd['name'],
+               'acc_gene_id': ga['id'], 'acc_tx_id': ta['id'], 'acc_pos0': a_first, 'acc_gene_symbol': ga['name']}
+        rows = []
+        seen = set()
+        for gene, tx, centre in ((gd, td, bp - 1), (ga, ta, abp)):
+            gseq = G.gene_seq(world, gene)
+            for _k in range(rng.choice([0, 1, 1, 2, 3])):
+                tp = centre + int(round(rng.gauss(0, 6)))
+                if not (0 <= tp < G.tx_len(tx)):
+                    continue
+                gs = G.g2gene(gene, G.tx2g(gene, tx, tp))
+                if gs + 5 >= len(gseq):
+                    continue
+                ref, alt = _snv_like(rng, gseq, gs)
+                if (gene['id'], gs, ref, alt) in seen or ref == alt:
+                    continue
+                seen.add((gene['id'], gs, ref, alt))
+                for t in gene['transcripts']:
+                    kind, _, _ = map_record(gene, t, gs, gs + len(ref))
+                    if kind != 'outside':
+                        rows.append([gene['id'], gs + 1, var_id(gs, ref, alt), ref, alt, t['id'], gene['name']])
+        return {'world': world, 'gvf': rows, 'gene': gd['id'], 'target': td['id'], 'tag': 'fusion',
+                'fusions': [{'id': fid, 'donor_gene': gd['id'], 'donor_tx': td['id'], 'bp': bp,
+                             'acc_gene': ga['id'], 'acc_tx': ta['id'], 'abp': abp, 'row': row}]}
+    raise RuntimeError('fusion generator failed')
+
 # ------------------------------------------------------------------ oracle inputs
 def find_gene(world, gid):
     return next(g for g in world['genes'] if g['id'] == gid)
